@@ -643,6 +643,9 @@ class World:
         """holds on the actual store after the operation finally succeeded (reference re-synchronised from the store)"""
         kind = op[0]
         ref = self.ref
+        lost = [i for i in before['ids'] if i not in ref and not (kind == 'delid' and i == nb(IDN[op[1]]))]
+        if lost:
+            return 'an identity that existed before the failed operation is gone afterwards'
         if kind in ('touch', 'newid'):
             ib = nb(IDN[op[1]])
             if ib not in ref:
@@ -655,6 +658,8 @@ class World:
                         return 'touch_identity returned an identity without a usable default key and certificate'
         elif kind == 'newkey':
             ib = nb(IDN[op[1]])
+            if ib not in ref:
+                return 'the identity that existed before the failed operation is gone'
             if len(ref[ib]['keys']) <= before['nkeys'].get(ib, 0):
                 return 'new_key succeeded but the identity has no additional key'
         elif kind == 'delid':
@@ -671,6 +676,8 @@ class World:
                 return 'set_default_identity succeeded but the identity is not the default'
         elif kind == 'defkey':
             ib = nb(IDN[op[1]])
+            if ib not in ref:
+                return 'the identity that existed before the failed operation is gone'
             if ref[ib]['default'] != before['target']:
                 return 'set_default_key succeeded but the key is not the default'
         elif kind == 'defcert':
